@@ -79,7 +79,7 @@ class LoopMonitor:
             if not self.q.time_matches(timeout, cands):
                 raise Violation('C11', 'requested time-out differs from the schedule t0+delay+j*interval (drift or wrong delay/interval)',
                                 {'j': r['j']})
-        self.readings = self.readings[-1:]
+        self.readings = self.readings[-1:] if self.rep is not None else []
 
     def on_poll_return(self, kind, genuine=False):
         if kind == 'timeout' and genuine:
